@@ -127,3 +127,11 @@ Proof.
   split; [vm_compute; reflexivity|]. split; [vm_compute; reflexivity|].
   cbn. repeat split; intros; try discriminate; try exact I; eauto.
 Qed.
+
+From V Require Import C03.PowProofs.
+(* fold_pow_special_cases: the former witnesses now fold to NaN, as the standard says *)
+Example fold_pow_ex :
+  map (fun p => fold_pow (fst p) (snd p))
+      [(Fin false 1 0, NaN); (Fin false 1 0, Inf false); (Fin true 1 0, Inf true); (Fin false 2 0, Inf true); (Fin true 0 0, Fin true 3 0)]
+  = [Some NaN; Some NaN; Some NaN; Some (Fin false 0 0); Some (Inf true)] /\ wf_double (Fin false 1 0).
+Proof. split; [vm_compute; reflexivity | cbn; unfold two53; lia]. Qed.
